@@ -4,7 +4,7 @@
 From Coq Require Import Reals QArith Qabs ZArith List.
 From IPV Require Import C12.MiniPrelude C12.RK C12.Step C12.Checker C12.Closed.
 From IPV Require Import Gen.Gen_C12_Tableau Gen.Gen_C12_Step.
-From IPV Require Import C12.RKProofs C12.StepProofs C12.Controller C12.Transfer.
+From IPV Require Import C12.Inst C12.RKProofs C12.StepProofs C12.Controller C12.Transfer.
 Import ListNotations.
 Open Scope Q_scope.
 
@@ -16,6 +16,12 @@ Theorem stage_combinations_linear :
   comb_linear (res CK) /\ comb_linear (est CK) /\ comb_linear (x1 CK) /\ comb_linear (x2 CK) /\ comb_linear (x3 CK).
 Proof. exact all_linear. Qed.
 Print Assumptions stage_combinations_linear.
+
+(* evaluation i only uses k1..k_{i-1} (explicit scheme) *)
+(* the error estimate is divided by the reactant's tolerance and compared with 1 *)
+Theorem error_scaled_by_tolerance : g_err_divided_by_tol = true /\ g_err_limit == 1.
+Proof. exact err_scaled_by_tol. Qed.
+Print Assumptions error_scaled_by_tolerance.
 
 (* evaluation i only uses k1..k_{i-1} (explicit scheme) *)
 Theorem tableau_lower_triangular : strictly_lower (tabA CK) = true.
